@@ -318,7 +318,9 @@ func evaluate(k Case) (out []finding) {
 	}
 	defer func() {
 		if r := recover(); r != nil {
-			out = append(out, finding{"C09", k.Aligner + "/panic", fmt.Sprintf("Align(%q,%q) panicked: %v", k.R, k.Q, r)})
+			// a panic on well-typed input breaks both properties: nothing optimal was returned (C08) and Align panicked (C09)
+			out = append(out, finding{"C09", k.Aligner + "/panic", fmt.Sprintf("Align(%q,%q) panicked: %v", k.R, k.Q, r)},
+				finding{"C08", k.Aligner + "/panic", fmt.Sprintf("Align(%q,%q) returned no alignment: it panicked: %v", k.R, k.Q, r)})
 		}
 	}()
 	al := mkAligner(k)
@@ -553,7 +555,7 @@ func Main(prop string) {
 
 func run(c *enum.Ctx, prop string) {
 	if prop == "C08" {
-		c.Rule("alphabet '-ac' (gap first): every ordered pair of non-empty sequences of length <=3 over {a,c}; every 3x3 matrix with substitution entries in {-1,0,1} and the four gap entries in {0,-1}; gap-open in {0,-1,-2}; the six aligners; a third of the matrices reach the aligner in a matrix value that earlier alignments used with other contents (rewritten in place), a fifth embedded in a matrix two rows/columns larger than the alphabet (extra cells 55), a fifth as a copy-on-write edit of a block-allocated matrix (outer rows views of one block, inner rows replaced), and one goroutine sweeps every 7th matrix through a single matrix value, all aligners applied again after each rewrite (thorough: lengths <=4, substitution entries in {-2..2} on a sliced sub-grid, gap entries {0,-1,-2}, and the alphabet '-acg' with lengths <=2; lengths 5 on every 40th matrix of the small grid); alphabets '-acgtn' (thorough also gap + 20 letters) with two asymmetric all-different matrices and every pair of sequences of length <=2; every word pair on a few matrices directly after a REJECTED call (illegal letter at each position of either sequence, ragged matrix sharing the rows of the good one, mixed sequence types, distinct alphabet objects) on the same goroutine; oracle: the score of the RETURNED PATH recomputed from the letters equals the optimum of an independent reference DP (global / local / whole-query-ending-at-the-same-reference-position; affine: three-state with and without gap-to-gap transitions so that the two defect classes are told apart); non-trivial = cases whose optimal alignment contains at least one gap or mismatch")
+		c.Rule("alphabet '-ac' (gap first): every ordered pair of non-empty sequences of length <=3 over {a,c}; every 3x3 matrix with substitution entries in {-1,0,1} and the four gap entries in {0,-1}; gap-open in {0,-1,-2}; the six aligners; a third of the matrices reach the aligner in a matrix value that earlier alignments used with other contents (rewritten in place), a fifth embedded in a matrix two rows/columns larger than the alphabet (extra cells 55), a fifth as a copy-on-write edit of a block-allocated matrix (outer rows views of one block, inner rows replaced), and one goroutine sweeps every 7th matrix through a single matrix value, all aligners applied again after each rewrite (thorough: lengths <=4, substitution entries in {-2..2} on a sliced sub-grid, gap entries {0,-1,-2}, and the alphabet '-acg' with lengths <=2; lengths 5 on every 40th matrix of the small grid); alphabets '-acgtn' (thorough also gap + 20 letters) with two asymmetric all-different matrices and every pair of sequences of length <=2; a fixed word of 260 / 520 letters over '-acgt' against itself with one letter inserted or deleted at every position around 256 / 512 and with blocks of 63..129 letters missing from either side, all aligners, on one goroutine; every word pair on a few matrices directly after a REJECTED call (illegal letter at each position of either sequence, ragged matrix sharing the rows of the good one, mixed sequence types, distinct alphabet objects) on the same goroutine; oracle: the score of the RETURNED PATH recomputed from the letters equals the optimum of an independent reference DP (global / local / whole-query-ending-at-the-same-reference-position; affine: three-state with and without gap-to-gap transitions so that the two defect classes are told apart); non-trivial = cases whose optimal alignment contains at least one gap or mismatch")
 	} else {
 		c.Rule("every alignment produced in C08's space: monotone abutting path of equal-length blocks, one-sided gaps and empty zero-score pairs; global spans both sequences, local/fitted within bounds; per maximal run the reported scores equal the score recomputed from letters, matrix and gap parameters (gap-open once per run); plain and quality letters give identical pairs; align.Format gives two equal-length rows that reduce to the aligned sub-sequences; plus ill-typed calls (an illegal letter at every position of either sequence, distinct alphabet objects, mixed Letters/QLetters, nil alphabet, alphabet without leading gap, ragged / non-square / undersized / empty matrices) which must return an error and never panic; non-trivial = all")
 	}
@@ -824,6 +826,67 @@ func run(c *enum.Ctx, prop string) {
 				}
 			}
 		})
+	}
+	// long sequences (the size ladder of the tables): a fixed 5-letter-alphabet word of 260 / 520 letters
+	// against itself with one letter inserted or deleted at every position around 256 / 512 (the path takes
+	// a gap step exactly there), or with a block of 63..129 letters missing from either side (a gap run of
+	// exactly that length, also through Format); all on ONE goroutine, so that consecutive large alignments
+	// of different pairs meet whatever the previous one left in a pooled table
+	{
+		d := "-acgt"
+		M1 := [][]int{{0, -1, -1, -1, -1}, {-1, 3, -3, -3, -3}, {-1, -3, 3, -3, -3}, {-1, -3, -3, 3, -3}, {-1, -3, -3, -3, 3}}
+		M2 := [][]int{{0, -2, -1, -2, -1}, {-1, 4, -3, -2, -3}, {-2, -3, 3, -3, -1}, {-1, -2, -3, 4, -3}, {-2, -3, -2, -3, 3}}
+		word := func(n, salt int) string {
+			b := make([]byte, n)
+			x := uint32(2463534242 + salt)
+			for i := range b {
+				x ^= x << 13
+				x ^= x >> 17
+				x ^= x << 5
+				b[i] = "acgt"[x%4]
+			}
+			return string(b)
+		}
+		type pr struct{ r, q string }
+		var prs []pr
+		for _, n := range []int{260, 520} {
+			R := word(n, n)
+			lo, hi := n-10, n-1
+			if n == 260 {
+				lo = 250
+			} else if c.Quick {
+				lo, hi = 509, 516
+			} else {
+				lo = 505
+			}
+			for p := lo; p <= hi && p < n; p++ {
+				x := "acgt"[(strings.IndexByte("acgt", R[p])+1)%4]
+				prs = append(prs, pr{R, R[:p] + string(x) + R[p:]}, pr{R, R[:p] + R[p+1:]}, pr{R[:p] + R[p+1:], R})
+			}
+		}
+		R := word(260, 7)
+		for _, g := range []int{63, 64, 65, 127, 128, 129} {
+			prs = append(prs, pr{R, R[:70] + R[70+g:]}, pr{R[:60] + R[60+g:], R})
+		}
+		n := 0
+		for _, al := range aligners {
+			for pi, p := range prs {
+				M := M1
+				if (pi+len(al))%3 == 0 {
+					M = M2
+				}
+				// each near-identical pair is followed by an unrelated pair with a slightly smaller table (still above 65536 cells) on the same
+				// aligner (what the first leaves behind is wrong for the second)
+				for _, q := range []pr{p, {word(257+pi%2, 1000+pi), word(257+(pi/2)%2, 2000+pi)}} { // the second table fits in the first
+					k := Case{Aligner: al, R: q.r, Q: q.q, Letters: d, M: M, Open: -2}
+					c.Doing(0, k)
+					c.Eval()
+					report(c, prop, k, evaluate(k))
+					n++
+				}
+			}
+		}
+		c.Set("long_sequence_cases", n)
 	}
 	if prop != "C09" {
 		return
